@@ -81,7 +81,7 @@ def main(tier):
     wrong = json.loads(json.dumps(next(p for p in parse_printed_json(eq.output, "PAIR") if p["multi"]["M"] >= 50 and p["phase"] == 0)))
     wrong["single"]["M"] = wrong["multi"]["M"]
     do, df = run_pair(pd, wrong)
-    chk.control("unequal-effective-mobility-distinguishable", df > 1e-6, f"dF={df:.3g}")
+    chk.control("unequal-effective-mobility-distinguishable", df > 1e-6, f"dF={df:.3g}", impl_dependent=True)
     return chk.finish(
         rule="every complete interleaving of the MaxUpd=1 model (600) plus simulated deeper ones; distinct by call sequence; effective-mobility pairs distinct by parameter pair",
         exhaustive=False,
